@@ -84,6 +84,7 @@ class Sim(object):
         self.after_step = []       # monitor callbacks run after every step
         self.errors = []           # harness-level anomalies (exceptions escaping handlers)
         self.stats = {}
+        self.wall_offset = 0.0     # what time.time() shows minus the simulator's monotonic now (clock-jump faults)
         self.pct_prio = {}
         self.pct_changes = set()
         self.order_hash = hashlib.sha256()
